@@ -110,7 +110,7 @@ theorem depth1_exact_un (k : UnK) (a : Sm) (ea : ETy) (hk : unKnown k = true) (h
 theorem depth1_exact_bin (k : BinK) (a b : Sm) (ea eb : ETy) (hta : (a != .of .unknown) = true)
     (htb : (b != .of .unknown) = true) (hra : Rel a ea = true) (hrb : Rel b eb = true)
     (hacc : (T0.duckBin k ea eb != .error) = true) :
-    Rel (.of (annotBin T0 k a b)) (T0.duckBin k ea eb) = (famBin k a b ea eb).isNone :=
+    Rel (.of (annotBin T0 k a b)) (T0.duckBin k ea eb) = (famBin T0 k a b ea eb).isNone :=
   (binCheck_iff T0 bin_table_exact k a b ea eb hta htb hra hrb hacc).symm
 
 theorem depth1_exact_tern (k : TernK) (c a b : Sm) (ea eb : ETy) (hta : (a != .of .unknown) = true)
@@ -179,7 +179,7 @@ theorem predicates_are_boolean :
 theorem try_cast_is_cast (to : Ty) (a : Sm) : annotUn T0 (.tryCast to) a = to ∧ annotUn T0 (.cast to) a = to := by
   have h1 : T0.md .cast = .castTo := by decide +kernel
   have h2 : T0.md .tryCast = .castTo := by decide +kernel
-  simp [annotUn, annotNode, h1, h2]
+  simp [annotUn, annotNode, annotShape, h1, h2]
 
 /-- LAG / LEAD / FIRST_VALUE / LAST_VALUE `OVER ()`, ANY_VALUE, MIN, MAX and a scalar subquery keep their argument's type
     (complete finite decision over the 17 types) -/
@@ -204,6 +204,75 @@ theorem array_element_type (a b : Sm) : annotBin T0 .arrayElem a b = byArgs T0 [
   have h1 : T0.md .array = .arrayOf [true, true] := by decide +kernel
   have h2 : T0.md .bracket = .bracket := by decide +kernel
   simp [annotBin, h1, h2, applyMask]
+
+/-- every place annotate_types.py writes into a node, a type or meta is one of the audited sites, and the only sites that
+    rewrite the tree are those of `_restore_dot_parts` (list re-extracted from the ast on every run) -/
+theorem write_sites_audited : writeSitesOk SqlglotModel.Generated.C16.writeSites = true := by decide +kernel
+
+/-- the column of a UNION read through a derived table is `_maybe_coerce` of the two branch types -/
+theorem union_column_type (a b : Sm) : annotBin T0 .unionCol a b = coerce T0 a.ty b.ty := by
+  have h : T0.md .subquery = .subquery := by decide +kernel
+  simp [annotBin, h]
+
+/-- UNION branches: coerced to the common class, except exactly when the coerced (first-wins) type's class is below one of
+    the branch classes in DuckDB's cast order (a restriction of `bin_table_exact`) -/
+theorem union_branches_exact :
+    (Sm.typed.all fun a => Sm.typed.all fun b => (compat a).all fun ea => (compat b).all fun eb =>
+      T0.duckBin .unionCol ea eb == .error
+      || (Rel (.of (annotBin T0 .unionCol a b)) (T0.duckBin .unionCol ea eb) == (famUnion T0 a b).isNone))
+      = true := by decide +kernel
+
+/-- CASE / IF / COALESCE / GREATEST / LEAST / array elements with a NULL branch: the other branch's class on both sides; with
+    NULL branches only: NULL (→ UNKNOWN) on both sides — complete over every typed other branch -/
+theorem null_branches_agree :
+    (([BinK.coalesce, .greatest, .least, .arrayElem].all fun k => Sm.typed.all fun a => (compat a).all fun ea =>
+        (T0.duckBin k ea .null == .error || Rel (.of (annotBin T0 k a (.of .null))) (T0.duckBin k ea .null))
+        && (T0.duckBin k .null ea == .error || Rel (.of (annotBin T0 k (.of .null) a)) (T0.duckBin k .null ea)))
+     && (TernK.all.all fun k => Sm.typed.all fun a => (compat a).all fun ea =>
+        (T0.duckTern k ea .null == .error || Rel (.of (annotTern T0 k (.of .boolean) a (.of .null))) (T0.duckTern k ea .null))
+        && (T0.duckTern k .null ea == .error || Rel (.of (annotTern T0 k (.of .boolean) (.of .null) a)) (T0.duckTern k .null ea))))
+      = true := by decide +kernel
+
+/-- NULLIF(a, b) on the live table: agrees for every accepted typed operand pair (no family) -/
+theorem nullif_exact :
+    (Sm.typed.all fun a => Sm.typed.all fun b => (compat a).all fun ea => (compat b).all fun eb =>
+      T0.duckBin .nullif ea eb == .error || Rel (.of (annotBin T0 .nullif a b)) (T0.duckBin .nullif ea eb)) = true := by
+  decide +kernel
+
+/-- GREATEST / LEAST / COALESCE over temporal classes: DATE with DATE, TIMESTAMP with TIMESTAMP and TIMESTAMP first with DATE
+    agree; DATE first with a (TIMESTAMPNTZ) TIMESTAMP is the mixed-chain disagreement -/
+theorem temporal_branches :
+    ([BinK.greatest, .least, .coalesce].all fun k =>
+      Rel (.of (annotBin T0 k (.of .date) (.of .date))) (T0.duckBin k .date .date)
+      && Rel (.of (annotBin T0 k (.of .timestampntz) (.of .timestampntz))) (T0.duckBin k .timestamp .timestamp)
+      && Rel (.of (annotBin T0 k (.of .timestampntz) (.of .date))) (T0.duckBin k .timestamp .date)
+      && !(Rel (.of (annotBin T0 k (.of .date) (.of .timestampntz))) (T0.duckBin k .date .timestamp))) = true := by
+  decide +kernel
+
+/-- one-level containers carry the element class through: `{'k': x}.k`, `ARRAY_AGG(x)[1]`, `MAP(['k'], [x])['k']` are typed
+    with x's type (complete over the 17 types); `[a, b][1:2][1]` and `UNNEST([a, b])` with the by-args coercion of a and b;
+    `LIST_CONCAT([a], [b])[1]` with a's type (the first list wins) -/
+theorem container_element_types :
+    ((Ty.all.all fun t => [UnK.structField, .arrayAggElem, .mapElem].all fun k => annotUn T0 k (.of t) == t)
+     && (Sm.all.all fun a => Sm.all.all fun b =>
+          annotBin T0 .sliceElem a b == byArgs T0 [a, b] false && annotBin T0 .unnest2 a b == byArgs T0 [a, b] false
+          && annotBin T0 .listConcatElem a b == byArgs T0 [a] false)) = true := by decide +kernel
+
+/-- the container composites at depth 1: accepted ⇒ (agree ⇔ not a mixed-chain pair; for LIST_CONCAT: ⇔ the first list's
+    class is not below the second's in DuckDB's cast order) — restrictions of `un_table_exact` / `bin_table_exact` -/
+theorem container_classes_exact :
+    (([UnK.structField, .arrayAggElem, .mapElem].all fun k => Sm.typed.all fun a => (compat a).all fun ea =>
+        engUn T0 k ea == .error || Rel (.of (annotUn T0 k a)) (engUn T0 k ea))
+     && ([BinK.sliceElem, .unnest2, .listConcatElem, .arrayElem].all fun k => Sm.typed.all fun a => Sm.typed.all fun b =>
+          (compat a).all fun ea => (compat b).all fun eb =>
+            T0.duckBin k ea eb == .error
+            || (Rel (.of (annotBin T0 k a b)) (T0.duckBin k ea eb) == (famBin T0 k a b ea eb).isNone))) = true := by
+  decide +kernel
+
+/-- `LIST_CONCAT([t.i], [t.db])[1]`: INT (first list) vs DOUBLE -/
+theorem list_concat_first_wins_witness :
+    annotBin T0 .listConcatElem (.of .int) (.of .double) = .int ∧ T0.duckBin .listConcatElem .integer .double = .double := by
+  decide +kernel
 
 /-! ### columns: the schema's type, end to end -/
 
@@ -288,9 +357,9 @@ theorem wrapper_keeps_type (S : Schema) (k : UnK) (a : TExpr) :
   have hw : T0.md .window = .byArgs [true] false := by decide +kernel
   have hf : T0.md .filter = .byArgs [true] false := by decide +kernel
   refine ⟨?_, ?_, rfl, rfl⟩
-  · simp only [annot, sm, Sm.ty, annotUn, unNode, annotNode, hw, applyMask]
+  · simp only [annot, sm, Sm.ty, annotUn, unNode, annotNode, annotShape, isWinFn, hw, applyMask]
     exact byArgs_single _
-  · simp only [annot, sm, Sm.ty, annotUn, unNode, annotNode, hf, applyMask]
+  · simp only [annot, sm, Sm.ty, annotUn, unNode, annotNode, annotShape, isWinFn, hf, applyMask]
     exact byArgs_single _
 
 /-! ### non-vacuity -/
